@@ -8,9 +8,11 @@
 (*   ediff     : M as above (its own call), E = ediff (q6), g = gediff (q6)         *)
 (*   pagerank  : dp, dq (d = dp/dq), f (integer falff; all ones renders None), r    *)
 (*   eigvec    : v (q6)        subgraph : c (q6)                                    *)
-(* EXACT clauses: WqIsPower, TotalsAreSums, MfptIsTheSolution (n <= 7 where the     *)
-(* determinants fit).  RESIDUAL / BOUND clauses (see RandomWalk.tla for the budgets):*)
-(* MfptEquation, EdiffIsInverse, GediffIsMean, Pagerank*, Eig*, SubgraphIsExpDiag.  *)
+(* EXACT clauses: WqIsPower, TotalsAreSums, MfptIsTheSolution (n <= 7) and           *)
+(* PagerankIsTheSolution (n <= 5), both only where the determinants fit 32 bits.    *)
+(* RESIDUAL / BOUND clauses (see RandomWalk.tla for the budgets): MfptEquation,      *)
+(* EdiffIsInverse, GediffIsMean, Pagerank{Positive,SumsToOne,Equation}, Eig*,         *)
+(* SubgraphIsExpDiag.                                                                *)
 EXTENDS RandomWalk, TraceBase
 
 Shape(n, M) == IsSquare(n, M)
@@ -81,7 +83,10 @@ JudgePagerank(r) ==
   LET S == PrScale(n, A, r.dq, r.f)
       R == [i \in 1..n |-> RoundDiv(r.r[i], Q6 \div S)] IN
   Chk("PagerankEquation",  PrEquation(n, A, r.dp, r.dq, r.f, R, S),
-  "ok")))))))))))
+  (* the equation has exactly one solution for d < 1                                  *)
+  IF n <= 5 /\ PrExactFits(n, A, r.dq, r.f)
+  THEN Chk("PagerankIsTheSolution", PrNearExact(n, A, r.dp, r.dq, r.f, r.r), "ok")
+  ELSE "ok")))))))))))
 
 (* "eigenvector_centrality_und returns a non-negative unit vector v with             *)
 (*  A v = lambda_max v"                                                              *)
@@ -112,12 +117,19 @@ JudgeSubgraph(r) ==
   Chk("SubgraphIsExpDiag", SubgraphIsExpDiag(n, A, r.c),
   "ok")))))))
 
-(* drift: does the implementation-shaped loop predict findwalks' very output?         *)
-Drift(r) ==
-  IF r.kind = "findwalks" /\ r.raised = "" /\ r.malformed = "" /\ r.n >= 2 /\ r.n <= 8
-     /\ Is01(r.n, r.A)
-  THEN (IF r.Wq = FwAll(r.n, r.A) THEN "same" ELSE "differs:Wq")
-  ELSE "na"
+(* drift: does the model predict the very output?  findwalks: the implementation-      *)
+(* shaped loop (FwAll).  mfpt / pagerank: "same" when the record was ALSO compared with  *)
+(* the exact Cramer solution (clause c = "ok" then includes *IsTheSolution), "na" when    *)
+(* only the residual clauses could be evaluated.                                        *)
+Drift(r, c) ==
+  CASE r.kind = "findwalks" ->
+         IF r.raised = "" /\ r.malformed = "" /\ r.n >= 2 /\ r.n <= 8 /\ Is01(r.n, r.A)
+         THEN (IF r.Wq = FwAll(r.n, r.A) THEN "same" ELSE "differs:Wq") ELSE "na"
+    [] r.kind = "mfpt" ->
+         IF c = "ok" /\ r.n <= 7 /\ MfptExactFits(r.n, r.A) THEN "same" ELSE "na"
+    [] r.kind = "pagerank" ->
+         IF c = "ok" /\ r.n <= 5 /\ PrExactFits(r.n, r.A, r.dq, r.f) THEN "same" ELSE "na"
+    [] OTHER -> "na"
 
 ClassOf(r) ==
   CASE r.kind = "findwalks" -> IF r.A = Zero(r.n) THEN "no_edges" ELSE "has_edges"
@@ -127,15 +139,15 @@ ClassOf(r) ==
          ELSE IF Connected(r.n, r.A) THEN "connected" ELSE "disconnected"
     [] OTHER -> "any"
 
-Judge(r) ==
-  <<CASE r.kind = "findwalks" -> JudgeFindwalks(r)
-      [] r.kind = "mfpt"      -> JudgeMfpt(r)
-      [] r.kind = "ediff"     -> JudgeEdiff(r)
-      [] r.kind = "pagerank"  -> JudgePagerank(r)
-      [] r.kind = "eigvec"    -> JudgeEigvec(r)
-      [] r.kind = "subgraph"  -> JudgeSubgraph(r)
-      [] OTHER -> "UnknownKind",
-    Drift(r), ClassOf(r)>>
+Clause(r) ==
+  CASE r.kind = "findwalks" -> JudgeFindwalks(r)
+    [] r.kind = "mfpt"      -> JudgeMfpt(r)
+    [] r.kind = "ediff"     -> JudgeEdiff(r)
+    [] r.kind = "pagerank"  -> JudgePagerank(r)
+    [] r.kind = "eigvec"    -> JudgeEigvec(r)
+    [] r.kind = "subgraph"  -> JudgeSubgraph(r)
+    [] OTHER -> "UnknownKind"
+Judge(r) == LET c == Clause(r) IN <<c, Drift(r, c), ClassOf(r)>>
 
 VARIABLES tid, verdict
 TInit == tid \in 1..Len(Recs) /\ verdict = <<>>
